@@ -1,7 +1,10 @@
 //! `pv`: runs scenarios on the real prometheus crate (built from /repo's working tree) and
 //! prints what it observed as Gallina terms, one line per scenario.
 mod build;
+mod conc;
+mod enc;
 mod fmt;
+mod mac;
 mod seq;
 mod tok;
 
@@ -29,6 +32,11 @@ fn main() {
         }
         let res = match line.split_whitespace().next().unwrap() {
             "S" => seq::run_line(line, Duration::from_millis(timeout_ms)),
+            "E" => enc::run_e(line),
+            "F" => enc::run_f(line),
+            "I" => enc::run_i(line),
+            "M" => mac::run_line(line),
+            "C" => conc::run_line(line),
             w => panic!("unknown scenario kind {}", w),
         };
         if res.ends_with("OHung]") {
